@@ -51,6 +51,80 @@ def instance_attrs(cls):
     return out
 
 
+# --------------------------------------------------------------------------- (e)
+def clause_e(repo, chk, res):
+    """seed-driven clauses"""
+    chk.rule("E-coord", "a VarsManager method that has a val_in_fit parameter passes it on to every callee that has one (set_all -> set, get_all_val -> get): a defaulted flag silently switches between physical and fit coordinates when a bound is installed")
+    chk.rule("E-neglect", "add_particle_constraints: in each `if \"m\"/\"g\" in float` statement the floated branch (freed / bound) and the not-floated branch (neglect on load) name the same attribute (mass / width)")
+    chk.rule("E-guard", "contradiction rule: an optimiser-result attribute that one statement of a fit driver guards with hasattr(s, X) is not read unguarded elsewhere in the same function (scipy's CG / Nelder-Mead results have no hess_inv)")
+    vm = repo.cls(VM_CLASS)
+    n = 0
+    for mname, f in sorted(vm.methods.items()):
+        if "val_in_fit" not in f.all_param_names():
+            continue
+        for c in [x for x in walk_local(f.node) if isinstance(x, ast.Call) and isinstance(x.func, ast.Attribute) and isinstance(x.func.value, ast.Name) and x.func.value.id == "self"]:
+            g = vm.lookup(c.func.attr)
+            if g is None or g is f or "val_in_fit" not in g.all_param_names():
+                continue
+            bound, extra, star, kw = bind_call(c, g)
+            b = bound.get("val_in_fit")
+            ok = isinstance(b, ast.Name) and b.id == "val_in_fit"
+            n += 1
+            chk.instance("E-coord", "VarsManager.%s -> %s binds val_in_fit=%s: %s" % (mname, c.func.attr, norm_text(b) if b is not None else "<callee default %s>" % norm_text(g.defaults().get("val_in_fit")), ok))
+            if not ok:
+                chk.violation("E-coord", f.key, "forward:%s" % c.func.attr, "`%s` does not pass its own val_in_fit on to %s (callee default %s, own default %s): with a bound installed the value is transformed although the caller asked for the other coordinate" % (norm_text(c)[:70], c.func.attr, norm_text(g.defaults().get("val_in_fit")), norm_text(f.defaults().get("val_in_fit"))), file=VAR_FILE, line=c.lineno)
+    if n < 3:
+        raise AnalysisError("fewer than 3 val_in_fit forwarding sites in VarsManager")
+    # neglect-list siblings
+    f = repo.fn("tf_pwa/config_loader/config_loader.py::ConfigLoader.add_particle_constraints")
+    want = {"m": "mass", "g": "width"}
+    seen = 0
+    for st in walk_local(f.node):
+        if not isinstance(st, ast.If):
+            continue
+        t = st.test
+        if not (isinstance(t, ast.Compare) and isinstance(t.left, ast.Constant) and t.left.value in want and isinstance(t.ops[0], ast.In) and "float" in norm_text(t.comparators[0])):
+            continue
+        seen += 1
+        def attrs(stmts):
+            return {x.attr for s_ in stmts for x in ast.walk(s_) if isinstance(x, ast.Attribute) and isinstance(x.value, ast.Name) and x.value.id == "p_i" and x.attr in ("mass", "width")}
+        a_if, a_else = attrs(st.body), attrs(st.orelse)
+        neglect = any("_neglect_when_set_params" in norm_text(s_) for s_ in st.orelse)
+        ok = a_if == {want[t.left.value]} and a_else == {want[t.left.value]} and neglect
+        chk.instance("E-neglect", "float %r: floated branch touches %s, not-floated branch neglects %s: %s" % (t.left.value, sorted(a_if), sorted(a_else), ok))
+        if not ok:
+            chk.violation("E-neglect", f.key, "float:%s" % t.left.value, "for `%s` in float the floated branch handles p_i.%s but the other branch puts p_i.%s on the neglect-on-load list (expected %s in both): a fitted value is dropped when parameters are loaded from a file" % (t.left.value, sorted(a_if), sorted(a_else), want[t.left.value]), file=f.mod.rel, line=st.lineno)
+    if seen != 2:
+        raise AnalysisError("add_particle_constraints: expected the two `\"m\"/\"g\" in float` statements, found %d" % seen)
+    # contradiction rule on optimiser-result attributes
+    for key in ("tf_pwa/fit.py::fit_scipy", "tf_pwa/fit.py::fit_newton_cg"):
+        fn = repo.fn(key)
+        from ..model import parent_map
+
+        pm = parent_map(fn.node)
+        guarded_attrs = {}
+        for x in walk_local(fn.node):
+            if isinstance(x, ast.Call) and isinstance(x.func, ast.Name) and x.func.id == "hasattr" and len(x.args) == 2 and isinstance(x.args[1], ast.Constant):
+                guarded_attrs.setdefault((norm_text(x.args[0]), x.args[1].value), []).append(x)
+        for (recv, attr), guards in sorted(guarded_attrs.items()):
+            for x in walk_local(fn.node):
+                if isinstance(x, ast.Attribute) and x.attr == attr and norm_text(x.value) == recv and isinstance(x.ctx, ast.Load):
+                    # is x inside an `if hasattr(recv, attr)` body ?
+                    cur, ok = x, False
+                    while cur in pm:
+                        par = pm[cur]
+                        if isinstance(par, ast.If) and cur in par.body and any("hasattr(%s, %r)" % (recv, attr) in norm_text(par.test).replace('"', "'") for _ in [0]):
+                            ok = True
+                        cur = par
+                    chk.instance("E-guard", "%s: read of %s.%s at line %d guarded by hasattr: %s" % (key.split("::")[1], recv, attr, x.lineno, ok), show=False)
+                    if not ok:
+                        chk.violation("E-guard", key, "unguarded:%s.%s" % (recv, attr), "`%s.%s` is read without a guard although the same function tests hasattr(%s, %r) elsewhere: for minimisers whose result has no %s (scipy CG, Nelder-Mead) the fit ends in AttributeError" % (recv, attr, recv, attr, attr), file=FIT, line=x.lineno)
+    chk.require_count("E-guard", 2)
+
+
+VAR_FILE = "tf_pwa/variable.py"
+
+
 def run(repo, chk, tier):
     res = Resolver(repo)
     eff = Effects(repo, res)
@@ -58,6 +132,7 @@ def run(repo, chk, tier):
     clause_b(repo, chk, res, eff)
     clause_c(repo, chk, res)
     clause_d(repo, chk)
+    clause_e(repo, chk, res)
 
 
 # --------------------------------------------------------------------------- (a)
